@@ -56,7 +56,7 @@ PROPS["C08"] = {
     "technique": "history monitor: store/load/clone/set_permissions/compare histories on up to 4 handles vs per-handle byte-map model, neighbourhood re-read on every handle after each mutation",
     "rule": "histories of 10-300 operations on up to 4 clones, addresses in a window straddling the 1024-byte page boundary (0x3e8-0x418), "
             "page start and a second boundary, at base 0, 0x10000, 2^63-4096 and 2^64-8192; widths 8..256 bits; both endiannesses; with and "
-            "without a backing that has holes; value types il::Constant and il::Expression (constant-leaf trees, evaluated by refeval). After "
+            "without a backing that has holes (one backing in three built with the opposite byte order); value types il::Constant and il::Expression (constant-leaf trees, evaluated by refeval). After "
             "every store/set_permissions each live handle is re-read byte by byte +-16 around the touched range plus random wide loads and "
             "permissions. Non-trivial = a store that overlaps earlier values or crosses a page; distinct = (overlap shape, endianness, backing, value type).",
     "level_text": "Random operation histories against an executable reference model with immediate re-reads on all clones, so copy-on-write leaks, "
@@ -100,7 +100,7 @@ PROPS["C18"] = {
     "min_evaluations": 100000,
     "technique": "differential monitor: RefProgramLocation forward/backward/enumeration/round-trips vs an independently built location graph",
     "rule": "random programs of 1-3 functions (<=8 blocks; empty blocks, self-loops, multi-in/multi-out blocks, unreachable blocks, duplicate and "
-            "missing instruction addresses); for every location of every function forward() and backward() are compared with the independent "
+            "missing instruction addresses, non-dense and out-of-order instruction indices, functions that went through merge(), function addresses unrelated to their instruction addresses); for every location of every function forward() and backward() are compared with the independent "
             "location graph, the converse relation is checked pairwise, the forward closure from the entry is compared with graph reachability, "
             "each location is round-tripped through ProgramLocation/FunctionLocation on the program and on a clone (apply, migrate), and "
             "from_address is queried for every address in the range used. Distinct = (block count, edge count, has empty block, has self-loop).",
@@ -120,7 +120,7 @@ PROPS["C06"] = {
             "ALU/move/memory filler incl. 10-byte x86 instructions, forward and backward conditional and unconditional direct branches (x86 rel8/rel32, loop), branches to the "
             "next instruction, MIPS delay slots (also as branch targets), returns, indirect jumps through a reserved register with manual edges (true target plus decoys, "
             "conditional and unconditional), never-taken manual edges between arbitrary instructions, x86 branches into the middle of an instruction; code placed at every "
-            "alignment relative to the 64-byte translation window, straight-line runs longer than a window, function entry in the middle of the program; 3-4 initial states "
+            "alignment relative to the 64-byte translation window, straight-line runs longer than a window, function entry in the middle of the program, the image as one or as two adjacent memory sections; 3-4 initial states "
             "per program. Structure per function: address and entry block, no edge naming a missing block, each statically reachable instruction present with exactly the IL "
             "operations of its own lifting (neither missing nor duplicated). Non-trivial = an execution of >= 2 distinct instructions compared to its end; distinct = "
             "(translator, end kind, loop, window-crossing, mid-block target, manual/indirect/overlap features).",
@@ -139,7 +139,7 @@ PROPS["C07"] = {
     "min_evaluations": 100000,
     "technique": "lock-step differential monitor: executor::Driver vs independent reference IL interpreter, comparing location, all scalars and memory after every step, or the error kind",
     "rule": "random IL programs of 1-3 functions (<=6 blocks each; assignments, loads, stores, indirect branches within and across functions, "
-            "to on-demand-liftable x86 code and to nowhere, intrinsics, divisions; widths 1..128; 2- and 3-way guard partitions, empty blocks, "
+            "to on-demand-liftable x86 code and to nowhere, function addresses unrelated to instruction addresses, a data window straddling a page boundary of the paged memory, intrinsics, divisions; widths 1..128; 2- and 3-way guard partitions, empty blocks, "
             "self-loops) from corner-biased initial states with occasionally undefined scalars and an unmapped byte, both endiannesses, memory "
             "with and without backing; one in ten programs has guards that are deliberately not exhaustive. Lock-step for <=200 steps. "
             "Distinct = (how the run ended: terminal/undefined scalar/unmapped/div by zero/intrinsic/no guard/branch nowhere/lifted/step cap, "
@@ -177,7 +177,7 @@ PROPS["C15"] = {
     "technique": "invariant monitor after every CFG editing operation + differential execution (reference interpreter) across merge() and append()",
     "rule": "random histories of 10-60 operations (new_block, block operations, remove_instruction, conditional/unconditional edges incl. invalid "
             "ones, set_entry/set_exit incl. invalid, append, insert, merge) on two live graphs with all structural invariants re-checked after every "
-            "step (success or failure); merge() on random functions (<=8 blocks, loops, self-loops, empty blocks, unreachable blocks) with executed-"
+            "step (success or failure), and across every successful merge() in a history (blocks with mixed conditional/unconditional out-edges included) the set of instruction sequences executable from the entry, guards ignored, up to 6 instructions, must be unchanged; merge() on random functions (<=8 blocks, loops, self-loops, empty blocks, unreachable blocks) with executed-"
             "operation traces and final states compared before/after from 4 states; a.append(b) compared with running a then b; "
             "BlockTranslationResult::blockify on lifted amd64 blocks. Distinct = (scenario, size buckets, number of blocks merged).",
     "level_text": "Sampled operation histories with a complete invariant check after each step, and sampled functions/states for the meaning-preservation half.",
@@ -195,7 +195,7 @@ PROPS["C12"] = {
             "After each executed location every last writer must be in reaching_definitions[location]; before each instruction/guarded edge the "
             "last writer of every scalar it reads must be in use_def; every reported assignment/load must reach along a path of the independent "
             "location graph without another assignment/load of the scalar; def_use must be exactly the inverse of use_def. Distinct = (block count, "
-            "loop?, multi-scalar read seen, self-read seen, intrinsic present).",
+            "loop?, multi-scalar read seen, self-read seen, intrinsic present). The scalars an operation or guard reads are computed by the harness's own walk over the IL (indirect-branch targets that read scalars included), not by falcon's scalars_read.",
     "level_text": "Sampled functions and executions; each executed location is an oracle comparison, the static half is complete per function.",
     "level_note": "trusts harness/src/refinterp.rs (last-writer shadow) and locgraph.rs; reported stores/nops/branches in reaching definitions are outside the statement and ignored; an execution ends at an indirect branch",
     "assumptions": ["intrinsics with declared written scalars are executed as writes of those scalars; undeclared ones as no-ops", "the function's execution ends at an indirect branch (no successor in its CFG)"],
@@ -253,12 +253,12 @@ PROPS["C17"] = {
     "technique": "execution monitor: reference-interpreter runs check sp_now == sp_entry + reported offset (mod 2^w) after every executed location, for all seven architecture descriptors",
     "rule": "for each of the 7 architectures (its stack_pointer() scalar, 32 or 64 bits): random IL functions whose entry block has no incoming edge, "
             "mixing sp +- constants, constant + sp, sp = other register, sp loaded from memory, sp saved elsewhere, sp & -16, sp = constant, sp + sp, "
-            "balanced/unbalanced diamonds and loops; stack_pointer_offsets must return Ok; 6 executions (<=150 steps) each: after every executed "
+            "constant - sp, nested affine forms, balanced/unbalanced diamonds and loops, plus (one case in eight) a machine-code function made of the architecture's stack-adjusting idioms lifted by its own translator; stack_pointer_offsets must return Ok; 6 executions (<=150 steps) each: after every executed "
             "location with Value(k), sp equals its entry value plus k reduced to the pointer width. Distinct = (architecture, block count, numeric "
             "offsets met, unknown offsets met).",
     "level_text": "Sampled functions and executions per architecture; all seven descriptors are exercised on every run (the first seven cases are one per architecture).",
     "level_note": "trusts harness/src/refinterp.rs; Top/Bottom reports are never wrong by the statement",
-    "assumptions": ["machine-code functions lifted by the translators are covered by C06's generator, not here"],
+    "assumptions": ["lifted machine code is limited to straight-line stack-adjusting idioms (lea/sub/add on esp/rsp, addiu $sp, addi r1, sub/add sp) ending in a return"],
 }
 
 PROPS["C03"] = {
@@ -268,7 +268,7 @@ PROPS["C03"] = {
     "technique": "differential monitor: falcon-lifted IL run by the reference IL interpreter vs an independent A64 decoder/interpreter (a64ref, written from the Arm ARM pseudocode) from the same state",
     "rule": "one 32-bit word per case from 18 class templates with every free field random (add/sub imm/shifted/extended, move wide, logical imm/"
             "shifted, load/store register in all addressing modes, unsigned offset, literal, pairs, ordered, LDAPUR/STLUR, b/bl, b.cond, cbz, tbz, "
-            "br/blr/ret, hints) plus uniformly random words; register values biased to pointers/small ints/corners, random NZCV; the bytes an access "
+            "br/blr/ret, hints) plus uniformly random words; register fields biased to 31/30 and to aliasing operands (Rd = Rm, Rd = Rn, a register moved onto itself); register values biased to pointers/small ints/corners, random NZCV; the bytes an access "
             "touches are discovered by a probe run of the reference and mapped with random data; little- and big-endian data. Compared: X0-X30, SP, "
             "NZCV, V0-V31, all memory, next PC. Thorough adds exhaustive 12-bit immediate (x LSL#12) and 6-bit shift-amount sweeps. Non-trivial = the "
             "instruction changed a compared output; distinct = (a64ref class, endianness).",
@@ -290,7 +290,8 @@ PROPS["C01"] = {
             "rotates incl. through carry, shld/shrd, movzx/movsx/movsxd, setcc/cmovcc/jcc for all 16 conditions, jmp/call/ret/loop/jrcxz, push/pop/leave, "
             "xchg/xadd/cmpxchg, bt/bts/btr/btc, bsf/bsr/bswap, cbw/cwd family, flag instructions, string instructions with rep/repe/repne, SSE moves, "
             "logic and shuffles) x operand size 8/16/32/64/128 (0x66, REX.W) x register/memory/immediate forms x every ModRM/SIB addressing mode incl. "
-            "rip-relative, fs/gs overrides, high-byte registers, aliasing operands; corner-biased register, flag and memory contents; register values "
+            "rip-relative, fs/gs overrides, the address-size prefix (67h: 32-bit addressing and ecx/esi/edi in 64-bit mode, cx as loop/jcxz count in 32-bit mode), "
+            "high-byte registers, aliasing operands; corner-biased register, flag and memory contents; one case in four lifts the instruction as the second of its block (after a nop); register values "
             "solved so the memory operand lands in a 6 KiB scratch arena shared by both sides. 2/3 of the cases run in 64-bit mode; 32-bit mode cases "
             "are lifted by translator::x86::X86 and run natively through the mode-equivalence map (same bytes with an address-size prefix; 0x40-0x4f "
             "mapped to FF /0,/1). Non-trivial = the instruction changed a compared output; distinct = (mode, form, operand size, reg/mem).",
@@ -335,7 +336,7 @@ PROPS["C05"] = {
     "memcheck_leg": 60,
     "totality": True,
     "min_evaluations": 500000,
-    "technique": "totality + well-formedness monitor: hostile byte strings lifted by all 7 translators x both unsupported-instruction policies under catch_unwind; harness-written IL well-formedness checker and guard-determinism evaluator judge every result; dead/hung workers are attributed to the in-flight input; thorough adds a plain-release leg and a valgrind memcheck leg over the same workload (the disassemblers are C code behind FFI)",
+    "technique": "totality + well-formedness monitor: hostile byte strings lifted by all 7 translators x both unsupported-instruction policies under catch_unwind; harness-written IL well-formedness checker and guard-determinism evaluator judge every result; dead/hung workers are attributed to the in-flight input; a thread that never lifted anything must give the same answer as the worker thread (no dependence on earlier lifts); thorough adds a plain-release leg and a valgrind memcheck leg over the same workload (the disassemblers are C code behind FFI)",
     "rule": "uniform random bytes (x86: 1-15 bytes, prefixed/two-byte opcodes, 8-48 byte streams; fixed-width ISAs: 1-3 words incl. lengths not a "
             "multiple of 4), class templates of the C02/C03 generators with a random bit flipped, at addresses 0, page-straddling, around 2^32 and near "
             "(but not wrapping) 2^64; thorough adds a stratified sweep of every value of the top 16 bits x 4 random low halves for the 5 fixed-width "
@@ -361,7 +362,7 @@ PROPS["C19"] = {
             "empty, file-only, bss tails, all permission combinations) plus the dynamic-metadata segment, .symtab/.dynsym symbols of every type/binding (undefined, absolute, "
             "value 0, two symbols at one address), PLT relocations, PT_INTERP, SONAME, user function entries; bases 0, page-aligned, unaligned and high. Link cases: x86 and "
             "MIPS (both endiannesses) main program + 1-3 shared objects with a random DT_NEEDED graph; R_386_32/GLOB_DAT/JMP_SLOT/RELATIVE, MIPS local and global GOT entries "
-            "and R_MIPS_REL32, referring to symbols of the object itself, the main program and its dependencies. Non-trivial = at least one mapped segment / one symbol-relocated word; "
+            "and R_MIPS_REL32, referring to symbols of the object itself, the main program and its dependencies; relocated words anywhere in the data segment's file part, its last word included. Non-trivial = at least one mapped segment / one symbol-relocated word; "
             "distinct = (kind, architecture, object type, segment count, features).",
     "level_text": "Sampled ELF descriptions; the expected answers are known by construction, the file bytes come from a writer that shares no code with the parser (goblin) or the loader.",
     "level_note": "trusts harness/src/elfgen.rs (self-tests against its own reader); library bases are read from ElfLinker::loaded() (the placement policy is not part of the property); symbol names are unique across linked objects",
@@ -380,9 +381,9 @@ PROPS["C20"] = {
     "technique": "configuration monitor: for each of the 7 architectures, the scalars its own translator produces over a register-sweep corpus, the scalar written by a stack-adjusting instruction, load address widths and the ELF loader's mapping are observed and compared with the published descriptors and a psABI table",
     "rule": "the finite space of 7 architectures x their calling-convention tables is enumerated completely on every run: every register named "
             "(argument, return, return-address, preserved, trashed) must be a (name, width) scalar observed in IL lifted by arch.translator() from a "
-            "register-sweep corpus; no register name both preserved and trashed; stack pointer preserved; stack slots of one machine word at "
+            "register-sweep corpus; no register name both preserved and trashed (in the published sets and through is_preserved/is_trashed, which must agree with the sets); stack pointer preserved; stack slots of one machine word at "
             "consecutive offsets; argument order / return register / return-address location per psABI; stack_pointer() is the scalar written by a "
-            "push/addiu $sp/stwu r1/sub sp instruction serialised in arch.endian() order; load/store address width = word_size(); loader::Elf maps "
+            "push/addiu $sp/stwu r1/sub sp instruction serialised in arch.endian() order; the MIPS unaligned-word idioms lwl/lwr and swl/swr at all four alignments read and write the word in arch.endian() byte order; load/store address width = word_size(); loader::Elf maps "
             "(e_machine, EI_DATA) to the same descriptor. Distinct = (architecture, role, register) facts confirmed.",
     "level_text": "A finite configuration space, enumerated completely (exhaustive: true); the observed side depends on the corpus, which sweeps every register number of every register class the conventions mention.",
     "level_note": "trusts the psABI table in harness/src/c20.rs (argument registers, return register, return-address location for cdecl, SysV amd64, o32, PPC SVR4, AAPCS64) and harness/src/elfgen.rs for the loader probe",
